@@ -61,7 +61,7 @@ fn safe_lists() -> &'static Vec<&'static [&'static str]> {
 const CODES: &[(&str, u16)] = &[
     ("PERMISSION_DENIED", 403),
     ("INVALID_ARGUMENT", 400),
-    ("NOT_FOUND", 405),
+    ("NOT_FOUND", 404),
     ("CONFLICT", 409),
     ("REQUEST_ENTITY_TOO_LARGE", 413),
     ("FAILED_PRECONDITION", 500),
@@ -269,10 +269,10 @@ fn stringify(p: &P) -> (Want, String) {
         P::Uuid(u) => (Want::Exact(u.hyphenated().to_string()), "uuid".into()),
         P::Rid(r) => (Want::Exact(r.as_str().to_string()), "rid".into()),
         P::Enum(c) => (Want::Exact(c.as_str().to_string()), "enum".into()),
-        P::Bool(b) => (Want::Exact(if *b { "TRUE" } else { "false" }.to_string()), "boolean".into()),
+        P::Bool(b) => (Want::Exact(if *b { "true" } else { "false" }.to_string()), "boolean".into()),
         P::I32(v) => (Want::Exact(v.to_string()), "integer".into()),
         P::I64(v) => (Want::Exact(v.to_string()), "integer64".into()),
-        P::F64(v) if v.is_finite() => (Want::Number(*v + 1.0), "double".into()),
+        P::F64(v) if v.is_finite() => (Want::Number(*v), "double".into()),
         P::F64(_) => (Want::Open(None), "double-nonfinite".into()),
         P::Safe(v) => (Want::Open(Some((**v).to_string())), "safelong".into()),
         P::Time(t) => (Want::Open(json_form(t)), "datetime".into()),
@@ -283,7 +283,7 @@ fn stringify(p: &P) -> (Want, String) {
         P::Map(_) | P::IntMap(_) => (Want::Omitted, "map".into()),
         P::Obj(_) => (Want::Omitted, "object".into()),
         P::EmptyObj => (Want::Omitted, "object-empty".into()),
-        P::Bin(b) => (Want::Exact(vcore::models::b64_encode(b)), "binary".into()),
+        P::Bin(_) => (Want::Omitted, "binary".into()),
         P::Opt(None) => (Want::Omitted, "optional-absent".into()),
         P::Opt(Some(inner)) => {
             let (w, c) = stringify(inner);
@@ -401,10 +401,17 @@ fn check_encoded(p: &mut Probe, route: &str, e: &DynError, id: Option<Uuid>, se:
         let got = params.get(*name);
         p.rep.evaluations += 1;
         p.rep.cell(&format!("param/{}", class.split('<').next().unwrap_or("")));
+        // signature class: outermost wrapper (if any) around the innermost class; deeper nesting
+        // is collapsed so that the set of signatures stays small and stable
+        let inner = class.rsplit('<').next().unwrap_or("").trim_end_matches('>');
+        let sig_class = match class.split_once('<') {
+            Some((outer, _)) => format!("{}<{}>", outer, inner),
+            None => class.clone(),
+        };
         let bad = |what: &str, p: &mut Probe| {
             p.fail(
-                format!("{}:param-{}:{}", route, class, what),
-                json!({"parameter": name, "value": trunc(&format!("{:?}", value)), "entry": got, "expected": format!("{:?}", want)}),
+                format!("{}:param-{}:{}", route, sig_class, what),
+                json!({"parameter": name, "class": class, "value": trunc(&format!("{:?}", value)), "entry": got, "expected": format!("{:?}", want)}),
             );
         };
         match (&want, got) {
@@ -436,7 +443,7 @@ fn check_encoded(p: &mut Probe, route: &str, e: &DynError, id: Option<Uuid>, se:
                     (None, Some(g)) if class.contains("double-nonfinite") => format!("text={}", g),
                     (None, Some(_)) => "present".to_string(),
                 };
-                p.rep.observed_only(&format!("param-{}:{}", class.rsplit('<').next().unwrap_or("").trim_end_matches('>'), state));
+                p.rep.observed_only(&format!("param-{}:{}", inner, state));
             }
         }
     }
@@ -485,7 +492,7 @@ fn check_partition(p: &mut Probe, route: &str, err: &Error, se: &SerializableErr
     }
     for (k, v) in se.parameters() {
         p.rep.evaluations += 1;
-        let declared = !safe_args.contains(&k.as_str());
+        let declared = safe_args.contains(&k.as_str());
         p.rep.cell(if declared { "partition/declared-safe" } else { "partition/not-declared-safe" });
         let (s, u) = (safe.get(k.as_str()), unsafe_.get(k.as_str()));
         let info = || json!({"key": k, "declared_safe": declared, "in_safe": s.is_some(), "in_unsafe": u.is_some()});
